@@ -484,7 +484,8 @@ def rule_editpair(fx, rep):
                               f"for a {vname} move, undo_move's board edits do not mirror make_move's: make sets {fmt(cm['set'])} removes {fmt(cm['remove'])}; "
                               f"undo sets {fmt(cu['set'])} removes {fmt(cu['remove'])}",
                               {"fn": bu.name, "file": bu.file, "line": bu.line})
-    rep.rule("C02-EDITPAIR", len(em) + len(eu), 13, ok, f"board edits mirrored under {n} feasible predicate valuations")
+    # 13 edit sites on the pinned tree; the floor guards against a vacuous pass only (merging the two placements of a branch into one call lowers the count)
+    rep.rule("C02-EDITPAIR", len(em) + len(eu), 9, ok, f"board edits mirrored under {n} feasible predicate valuations")
 
 
 def fmt(cs):
@@ -653,13 +654,59 @@ def rule_forward(fx, rep):
                     out.append(t[:100])
         return out
 
+    def expand_true(conds):
+        """conditions known true, with two indirections undone: a named `bool` local built by `&&` (its non-false definitions with
+        the conditions they sit under) and a call of a small in-crate `bool` helper (its true-returning paths, arguments substituted)"""
+        from facts import substitute_args
+        out = []
+        for (e, pol, w) in conds:
+            out.append((e, pol, w))
+            wb = w[0] if isinstance(w, tuple) else w
+            if pol is not True or not isinstance(wb, int):
+                continue
+            t = bm.blocks[wb]["term"]
+            if t["k"] != "switch" or "pl" not in t["discr"] or t["discr"]["pl"].get("p"):
+                continue
+            dl = t["discr"]["pl"]["l"]
+            # follow a plain copy to the named local
+            for _hop in range(3):
+                ds = bm.defs().get(dl, [])
+                if len(ds) == 1 and ds[0][0] == "stmt" and ds[0][3]["rv"]["k"] == "use" and "pl" in ds[0][3]["rv"]["op"] and not ds[0][3]["rv"]["op"]["pl"].get("p"):
+                    dl = ds[0][3]["rv"]["op"]["pl"]["l"]
+                else:
+                    break
+            ds = bm.defs().get(dl, [])
+            if len(ds) > 1 and bm.local_ty(dl) == "bool":
+                for d in ds:
+                    if d[0] == "stmt" and d[3]["rv"]["k"] == "use":
+                        ve = bm.expr(d[3]["rv"]["op"], expand_named=True, at=d[1])
+                        if deep_strip(ve) in (("const", 0), ("const", False)):
+                            continue
+                        out.append((ve, True, d[1]))
+                        out.extend(x for x in guard_conditions(bm, d[1], expand_named=True) if x[1] is True)
+                    elif d[0] == "call":
+                        out.append((("call", norm(callee_name(d[2]) or ""), tuple(bm.expr(a, expand_named=True, at=d[1]) for a in d[2]["args"])), True, d[1]))
+                        out.extend(x for x in guard_conditions(bm, d[1], expand_named=True) if x[1] is True)
+        more = []
+        for (e, pol, w) in out:
+            d = deep_strip(e)
+            if pol is True and isinstance(d, tuple) and d and d[0] == "call" and isinstance(d[1], str):
+                cb = fx.body(d[1])
+                if cb is not None and cb.kind in ("Fn", "AssocFn") and cb.n <= 30 and cb.local_ty(0) == "bool" and norm(cb.name).startswith("chess::game::"):
+                    for pc, ret, rb in decision_paths(cb, 32):
+                        if ret is None or deep_strip(ret) in (("const", 0), ("const", False)):
+                            continue
+                        more.append((substitute_args(ret, d[2]), True, w))
+                        more.extend((substitute_args(ce, d[2]), True, w) for (ce, val) in pc if (isinstance(val, int) and val != 0) or (isinstance(val, tuple) and 0 in val[1]))
+        return out + more
+
     verdict = None  # (good, why)
     for bb, j, s in bm.stmts():
         rv = s.get("rv")
         if s["k"] == "assign" and rv and rv["k"] == "agg" and rv.get("variant") == "Some" and "Square" in rv.get("ty", ""):
             v = deep_strip(bm.expr(rv["ops"][0], expand_named=True, at=bb))
             if isinstance(v, tuple) and v[0] == "call" and v[1].endswith("Square::forward") and sq_kind(v[2][0]) == "from" and is_mover(v[2][1]):
-                conds = guard_conditions(bm, bb, expand_named=True)
+                conds = expand_true(guard_conditions(bm, bb, expand_named=True))
                 need = need_from([show(e) for (e, pol, w) in conds if pol is True])
                 verdict = (all(need.values()), f"conditions present: {need}")
                 xf = extra_factors([e for (e, pol, w) in conds if pol is True])
